@@ -497,9 +497,15 @@ func (s *Server) dispatchLocked(c *conn, req *Req) (Reply, action) {
 			}
 		}
 		out := make([]Reply, 0, len(q))
+		if s.prop != nil {
+			s.prop.txnBegin(c, req.Seq) // propagation role: the writes of this EXEC form one unit
+		}
 		for i, qc := range q {
 			r := s.applyLocked(c, qc.cmd, qc.args, req.Seq, qc.seq, req.Seq, i, req.AtMs)
 			out = append(out, r)
+		}
+		if s.prop != nil {
+			s.prop.txnEnd(c)
 		}
 		return out, actNone
 	}
